@@ -117,6 +117,31 @@ def scenarios(tier):
             for sq in seqs:
                 yield {'leg': 'shared_object', 'prios': v, 't': 0, 'n_prio': n_prio, 'steps': 5,
                        'acts': [{'kind': k, 'actor': a, 't': t} for t, a, k in sq]}
+    # the acting system fails right after its action (the driver catches the error and carries on); what was removed
+    # is registered again one or two timesteps later
+    for v in ([1, 0], [1, 1], [0, 1, 0]) if tier == 'quick' else list(vectors(3)):
+        n = len(v)
+        for actor in range(n):
+            for j in range(n):
+                if j == actor:
+                    continue
+                for t2 in (1, 2):
+                    for back in ('readd', 'replace'):
+                        yield {'leg': 'fault_then_back', 'prios': v, 't': 0, 'steps': 4,
+                               'acts': [{'kind': 'remove', 'target': j, 'actor': actor, 't': 0, 'boom': True},
+                                        {'kind': 'add_back', 'target': j, 'actor': actor, 't': t2, 'how': back}]}
+            for n_prio in (2, -1):
+                yield {'leg': 'fault_then_back', 'prios': v, 't': 0, 'steps': 4, 'n_prio': n_prio,
+                       'acts': [{'kind': 'addN', 'actor': actor, 't': 0}, {'kind': 'removeN', 'actor': actor, 't': 1, 'boom': True},
+                                {'kind': 'addN', 'actor': actor, 't': 2}]}
+    # two systems registered mid-timestep, the first of which removes the second on its own first turn
+    for v in vectors(3):
+        n = len(v)
+        for t in (0, 1):
+            for actor in range(n):
+                for p1, p2 in ((2, 1), (2, 2), (0, -2), (-2, -3), (1, 0)):
+                    yield {'leg': 'new_actor', 'prios': v, 't': t, 'steps': 4,
+                           'acts': [{'kind': 'add_pair', 'actor': actor, 'prio1': p1, 'prio2': p2}]}
     # many systems (priority bands of ties): the acting system and its target at every band position
     big = [3] * 10 + [2] * 10 + [1] * 12 + [0] * 8
     for actor in (0, 5, 9, 10, 15, 21, 22, 31, 32, 39):
@@ -139,9 +164,13 @@ def scenarios(tier):
                                        'acts': [dict(x, actor=a1), dict(y, actor=a2)]}
 
 
+class Halt(Exception):
+    pass
+
+
 def run_scenario(case):
     reset_library()
-    prios, t_act, acts = case['prios'], case['t'], case['acts']
+    prios, t_act, acts = case['prios'], case['t'], [dict(a) for a in case['acts']]
     model = new_model(seed=1)
     events = []
     stamps = []       # timestep of every 'run' event (parallel to the run events)
@@ -162,12 +191,15 @@ def run_scenario(case):
         if len(events) > 60 + 3 * len(prios):     # make a runaway timestep visible instead of looping forever
             raise Violation(f'timestep {model.systems.timestep} does not terminate: more than 60 events',
                             expected='each system at most once', observed=events[:12] + ['...'])
-        now = [act for act in self.todo if act.get('t', t_act) == t_now]
+        now = [act for act in self.todo if act.get('t', t_act) in (t_now, 'first') and not act.get('done')]
         if now:
             if case.get('sandbox'):
                 run_sandbox()
             for act in now:
+                act['done'] = True
                 perform(self, act)
+                if act.get('boom'):
+                    raise Halt(f'{self.key} fails after its action')      # the driver catches it and carries on
 
     class S(Core.System):
         # key names the object (unique), id is what the scheduler sees (a replacement object reuses an id)
@@ -244,6 +276,16 @@ def run_scenario(case):
             sid = f's{act["target"]}'
             if sid in byid:
                 unregister(sid)
+        elif kind == 'add_back':
+            # a system removed earlier comes back: the same object, or a new object under the same id
+            sid = f's{act["target"]}'
+            if sid not in byid:
+                if act['how'] == 'readd':
+                    o = objs[sid]
+                else:
+                    o = objs[f'b{sid}'] = S(f'b{sid}', sid, prios[act['target']])
+                register(o)
+                events.append(('added', o.key))
         elif kind == 'readd':
             sid = f's{act["target"]}'
             if sid in byid:
@@ -269,6 +311,18 @@ def run_scenario(case):
                 unregister(sid)
                 register(objs[key])
                 events.append(('added', key))
+        elif kind == 'add_pair':
+            # two new systems are registered; the first of them is an actor itself: on its first turn it removes the
+            # second one again
+            n1 = objs['P1'] = S('P1', 'P1', act['prio1'])
+            n2 = objs['P2'] = S('P2', 'P2', act['prio2'])
+            n1.todo.append({'kind': 'remove_id', 'id': 'P2', 't': 'first'})
+            for o in (n1, n2):
+                register(o)
+                events.append(('added', o.key))
+        elif kind == 'remove_id':
+            if act['id'] in byid:
+                unregister(act['id'])
         elif kind == 'addN':
             # ONE extra object shared by all such actions: registered if it is not registered at the moment
             if 'N' not in byid:
@@ -320,9 +374,21 @@ def run_scenario(case):
             judge(t, starts.get(t, first_reg if t == 0 else dict(reg)), cuts[t], None, ends)
     else:
         for t in range(nsteps):
-            start_reg = dict(reg)
-            del events[:]
-            model.execute()
+            for attempt in range(3):
+                start_reg = dict(reg)
+                del events[:]
+                try:
+                    model.execute()
+                except Halt:
+                    # a system failed in the middle of the timestep: what ran so far is judged for order and
+                    # double runs only; the caller carries on, which runs the interrupted timestep again
+                    ev = list(events)
+                    trace.append(ev)
+                    judge(t, start_reg, ev, dict(reg), ends, partial=True)
+                    if model.timestep != t:
+                        raise Violation(f'a failed timestep {t} advanced the clock', expected=t, observed=model.timestep)
+                    continue
+                break
             ev = list(events)
             trace.append(ev)
             judge(t, start_reg, ev, dict(reg), ends)
@@ -331,7 +397,7 @@ def run_scenario(case):
     return tuple(tuple(e) for ev in trace for e in ev)
 
 
-def judge(t, start_reg, ev, end_reg, ends=None):
+def judge(t, start_reg, ev, end_reg, ends=None, partial=False):
     ends = ends or {}
     runs = [k for kind, k in ev if kind == 'run']
     for k in runs:
@@ -359,6 +425,8 @@ def judge(t, start_reg, ev, end_reg, ends=None):
             added.add(k)
     # 2. every system registered for the whole timestep runs exactly once
     stable = [k for k in start_reg if k not in removed and ends.get(k, t) >= t]
+    if partial:
+        stable = [k for k in stable if k in ran]      # an interrupted timestep: only what did run is judged
     for k in stable:
         if k not in ran:
             raise Violation(f'timestep {t}: system {k} stayed registered for the whole timestep but was skipped',
@@ -370,7 +438,7 @@ def judge(t, start_reg, ev, end_reg, ends=None):
         raise Violation(f'timestep {t}: systems registered throughout ran out of order', expected=exp_order,
                         observed=got_order)
     # 5. a timestep without any change is fully regular
-    if not removed and not added:
+    if not removed and not added and not partial:
         full = sorted((k for k in start_reg if ends.get(k, t) >= t), key=lambda k: (-start_reg[k][0], start_reg[k][1]))
         if runs != full:
             raise Violation(f'timestep {t}: regular timestep differs from priority/registration order',
